@@ -574,7 +574,7 @@ func (f *FrameV1) Clone() Frame {
 	c.psDataOffset = f.psDataOffset
 
 	// Copy pooled slice to new pooled slice.
-	c.pooledSlice = f.builder.GetPooledSlice(len(c.pooledSlice))
+	c.pooledSlice = f.builder.GetPooledSlice(len(f.pooledSlice))
 	copy(c.pooledSlice, f.pooledSlice)
 
 	// Recreate correct data slice.
